@@ -127,7 +127,29 @@ def job_dyn(j):
     return n, res
 
 
+def job_transient(j):
+    from .c15 import run_transient
+    cfg, = j
+    out = {}
+    n = 0
+    for k in range(0, 9):
+        _, outs, shorts = run_transient(cfg, k, probe_reads=True)
+        n += 1
+        for sid, step in shorts:
+            key = f'reads-inside-answer/{cfg["family"]}/{sid}'
+            out.setdefault(key, []).append(dict(key=key, clause='reads-inside-answer', replay=dict(cfg=cfg, transport='udp', lost=k),
+                                                detail=dict(cause=f'{sid}: short read on {step} after request #{k + 1} of poll 1 was lost')))
+    res = []
+    for key, lst in out.items():
+        lst[0]['n'] = len(lst)
+        res.append(lst[0])
+    return n, res
+
+
 def run(tier, seed, rep):
+    from .c15 import transient_configs
+    for n, res in pmap(job_transient, [(c,) for c in transient_configs() if c['family'] == 'ET']):
+        rep.add_many(res)
     dyn_cfgs = [dict(family='ET', tag=t, power=p, refused=(), battery_mode=2)
                 for t, p in (('ETU', 3000), ('ETU', 25000), ('ETT', 10000), ('EHU', 5000))]
     ndyn = 0
@@ -160,6 +182,10 @@ def run(tier, seed, rep):
 def replay(r):
     cfg = r['cfg']
     cfg['refused'] = tuple(cfg['refused'])
+    if 'lost' in r:
+        from .c15 import run_transient
+        _, outs, shorts = run_transient(cfg, r['lost'], probe_reads=True)
+        return dict(outcomes=outs, violations=sorted({x[0] for x in shorts}))
     if 'changes' in r:
         from .c15 import run_dynamic
         _, outs, shorts = run_dynamic(cfg, r['changes'], probe_reads=True)
